@@ -579,6 +579,12 @@ func (e *Env) call(x *ECall) Val {
 			case LSlot:
 				return scalar(types.NewPointer(l.Owner), l.NodeRef)
 			case LField:
+				// the root slot has no owner node: a nil pointer of the slot's content type (*Node)
+				if l.T != nil {
+					if _, isPtr := types.Unalias(l.T).Underlying().(*types.Pointer); isPtr {
+						return scalar(l.T, "0")
+					}
+				}
 				return scalar(types.NewPointer(l.Owner), "0")
 			}
 		case "slot_idx":
